@@ -14,9 +14,17 @@ namespace Earverif.AdmV
 inductive TypeDef | directSpeakers | matrix | objects | hoa | binaural
   deriving DecidableEq, Repr, Inhabited
 
+/-- One `MatrixCoefficient` of a Matrix audioBlockFormat. `badParam`: one of gainVar/delayVar/phaseVar/phase is
+set or `delay < 0` (what `_validate_matrix_channel` rejects). -/
+structure Coeff where
+  input : Option Nat := none
+  badParam : Bool := false
+  deriving Repr, Inhabited, DecidableEq
+
 /-- One audioBlockFormat, reduced to the fields the validators read.
 `cartMismatch`: `cartesian != isinstance(position, ObjectCartesianPosition)` (Objects);
-`equation/order/degree/norm/scr`: HOA block attributes (`normalization`, `screenRef` as tokens). -/
+`equation/order/degree/norm/scr`: HOA block attributes (`normalization`, `screenRef` as tokens);
+`outCh/coeffs`: Matrix block `outputChannelFormat` and `matrix` (rtime/duration are unset in modelled documents). -/
 structure Block where
   cartMismatch : Bool := false
   equation : Bool := false
@@ -24,6 +32,8 @@ structure Block where
   degree : Option Int := none
   norm : Option Nat := none
   scr : Option Nat := none
+  outCh : Option Nat := none
+  coeffs : List Coeff := []
   deriving Repr, Inhabited, DecidableEq
 
 /-- audioChannelFormat; `freq` = `frequency.lowPass is not None or frequency.highPass is not None`. -/
@@ -65,23 +75,27 @@ structure TrackUID where
   deriving Repr, Inhabited
 
 /-- audioObject. `tracks` entries `none` are silent tracks (`ATU_00000000`).
-`params` = any of start/duration/gain≠1/mute/positionOffset/alternativeValueSets is set. -/
+`params` = any of start/duration/gain≠1/mute/positionOffset is set or `alternativeValueSets` is non-empty;
+`avs` = the object's alternativeValueSet child elements, as tokens (an AVS element is identified by its token). -/
 structure Obj where
   objects : List Nat := []
   packs : List Nat := []
   tracks : List (Option Nat) := []
   comps : List Nat := []
   params : Bool := false
+  avs : List Nat := []
   deriving Repr, Inhabited
 
 /-- audioContent. -/
 structure Content where
   objects : List Nat := []
+  avs : List Nat := []     -- referenced alternativeValueSets (tokens)
   deriving Repr, Inhabited
 
 /-- audioProgramme (ids are assumed to increase with the list position, as `generate_ids` makes them). -/
 structure Programme where
   contents : List Nat := []
+  avs : List Nat := []     -- referenced alternativeValueSets (tokens)
   deriving Repr, Inhabited
 
 /-- The document. `v2Allowed` = `adm.version is None or version_at_least(adm.version, 2)`. -/
@@ -127,10 +141,19 @@ def Doc.wellScoped (d : Doc) : Bool :=
   d.packs.all (fun p =>
     allLt p.channels d.channels.length && allLt p.packs d.packs.length &&
     allLt p.encodePacks d.packs.length && optLt p.input d.packs.length && optLt p.output d.packs.length) &&
+  d.channels.all (fun c => c.blocks.all (fun b =>
+    optLt b.outCh d.channels.length && b.coeffs.all (fun co => optLt co.input d.channels.length))) &&
   d.streams.all (fun s => optLt s.channel d.channels.length && optLt s.pack d.packs.length) &&
   d.trackFormats.all (fun t => optLt t.stream d.streams.length) &&
   d.trackUIDs.all (fun t =>
     optLt t.pack d.packs.length && optLt t.trackFormat d.trackFormats.length &&
     optLt t.channel d.channels.length)
+
+/-- An alternativeValueSet is a child element of one audioObject: no token occurs in two different objects
+(structural, like `wellScoped`: always true of parsed documents, where AVS elements are nested in their
+audioObject and duplicate AVS ids are rejected). -/
+def Doc.avsOwned (d : Doc) : Bool :=
+  (List.range d.objects.length).all (fun i => (List.range d.objects.length).all (fun j =>
+    i == j || (d.obj i).avs.all (fun a => !(d.obj j).avs.contains a)))
 
 end Earverif.AdmV
